@@ -5,6 +5,7 @@ package main
 
 import (
 	"fmt"
+	"net"
 	"net/netip"
 
 	"github.com/irai/packet"
@@ -28,6 +29,86 @@ func rfc1071(b []byte) uint16 {
 
 // verifies: one's-complement sum including the checksum field is 0xffff
 func verifies(b []byte) bool { return rfc1071(b) == 0 }
+
+func tf(b bool) string {
+	if b {
+		return "T"
+	}
+	return "F"
+}
+
+// sendPaths drives the real send functions on a recording connection and turns every emitted
+// ICMP message into a case: the message with its checksum field zeroed is the model's input, the
+// emitted bytes + the independent verifier's verdict are the implementation's observation.
+func sendPaths(r *lib.Run, rng *lib.Rand, n int) {
+	s, conn := lib.NewSession()
+	s.NICInfo.IFI = &net.Interface{MTU: 1500, Name: "eth0"}
+	mac := func() net.HardwareAddr { return net.HardwareAddr{0x02, rng.Byte(), rng.Byte(), rng.Byte(), rng.Byte(), rng.Byte()} }
+	ip4 := func() netip.Addr { return netip.AddrFrom4([4]byte{rng.Byte(), rng.Byte(), rng.Byte(), rng.Byte()}) }
+	ip6 := func() netip.Addr {
+		var a [16]byte
+		copy(a[:], rng.Bytes(16))
+		switch rng.Intn(4) {
+		case 0:
+			a[0], a[1] = 0xfe, 0x80
+		case 1:
+			a[0], a[1] = 0xff, 0x02
+		case 2:
+			a[0] = 0x20
+		}
+		return netip.AddrFrom16(a)
+	}
+	emit := func(class string) {
+		for _, f := range conn.Take() {
+			if len(f) < 14 {
+				r.Viol("send-short-frame", class+": frame shorter than an Ethernet header: "+lib.Hex(f), "")
+				continue
+			}
+			et := uint16(f[12])<<8 | uint16(f[13])
+			switch {
+			case et == 0x0800 && len(f) >= 14+20+4 && f[14+9] == 1:
+				msg := append([]byte{}, f[34:]...)
+				pre := append([]byte{}, msg...)
+				pre[2], pre[3] = 0, 0
+				r.Case("icmp4fin", []string{lib.Hex(pre)}, lib.Hex(msg)+" "+tf(verifies(msg)))
+				r.Stat("class.send."+class, 1)
+				if !verifies(f[14:34]) {
+					r.Viol("send-ip4-header-verify", class+": IPv4 header does not verify: "+lib.Hex(f[14:34]), "")
+				}
+			case et == 0x86dd && len(f) >= 14+40+4 && f[14+6] == 58:
+				msg := append([]byte{}, f[54:]...)
+				pre := append([]byte{}, msg...)
+				pre[2], pre[3] = 0, 0
+				src, dst := f[22:38], f[38:54]
+				psh := append(append(append([]byte{}, src...), dst...), 0, 0, byte(len(msg)>>8), byte(len(msg)), 0, 0, 0, 58)
+				r.Case("icmp6fin", []string{lib.Hex(src), lib.Hex(dst), lib.Hex(pre)}, lib.Hex(msg)+" "+tf(verifies(append(psh, msg...))))
+				r.Stat("class.send."+class, 1)
+			default:
+				r.Stat("class.send.other-frame", 1)
+			}
+		}
+	}
+	for i := 0; i < n; i++ {
+		id, seq := uint16(rng.U64()), uint16(rng.U64())
+		switch i % 5 {
+		case 0:
+			s.ICMP4SendEchoRequest(packet.Addr{MAC: mac(), IP: ip4()}, packet.Addr{MAC: mac(), IP: ip4()}, id, seq)
+			emit("ICMP4SendEchoRequest")
+		case 1:
+			s.ICMP6SendEchoRequest(packet.Addr{MAC: mac(), IP: ip6()}, packet.Addr{MAC: mac(), IP: ip6()}, id, seq)
+			emit("ICMP6SendEchoRequest")
+		case 2:
+			s.ICMP6SendNeighborAdvertisement(packet.Addr{MAC: mac(), IP: ip6()}, packet.Addr{MAC: mac(), IP: ip6()}, packet.Addr{MAC: mac(), IP: ip6()})
+			emit("ICMP6SendNeighborAdvertisement")
+		case 3:
+			s.ICMP6SendNeighbourSolicitation(packet.Addr{MAC: mac(), IP: ip6()}, packet.Addr{MAC: mac(), IP: ip6()}, ip6())
+			emit("ICMP6SendNeighbourSolicitation")
+		case 4:
+			s.ICMP6SendRouterSolicitation()
+			emit("ICMP6SendRouterSolicitation")
+		}
+	}
+}
 
 func main() {
 	r := lib.Init()
@@ -64,6 +145,13 @@ func main() {
 			r.Viol("ip4-header-verify", "IPv4 header written by SetPayload does not verify: "+lib.Hex(out[:20]), "ip4store "+a[0])
 		}
 		return lib.Hex(out[:20])
+	})
+	// icmp4fin <msg, checksum field zero>: what icmp4SendPacket makes of it (via ICMP4SendEchoRequest-like path:
+	// ICMP(p).SetChecksum(Checksum(p))), plus the verdict of the independent verifier
+	r.Register("icmp4fin", func(a []string) string {
+		p := lib.UnHex(a[0])
+		packet.ICMP(p).SetChecksum(packet.Checksum(p))
+		return lib.Hex(p) + " " + tf(verifies(p))
 	})
 	if r.Replayed() {
 		return
@@ -181,5 +269,10 @@ func main() {
 			r.Viol("ip4-header-verify", "IPv4 header written by "+which+" does not verify: "+lib.Hex(outp[:20]), "ip4store "+lib.Hex(pre))
 		}
 	}
+	nsend := 2000
+	if r.Thorough() {
+		nsend = 50000
+	}
+	sendPaths(r, rng, nsend)
 	r.Sample("cs 0001f203f4f5f6f7 => 3362 (RFC 1071 worked example, stored low byte first)")
 }
